@@ -16,7 +16,70 @@ WEIGHTS = {'add_formula_column': 12, 'modify_formula': 6, 'add_ref_column': 5, '
 
 def plan(tier, seed):
   n, steps = (16, 45) if tier == 'quick' else (160, 80)
-  return [{'hseed': seed * 100003 + 5000 + i, 'steps': steps, 'every': 4} for i in range(n)]
+  return [{'witness': 'self_lookup_cycle'}, {'witness': 'new_table_name'}] + \
+         [{'hseed': seed * 100003 + 5000 + i, 'steps': steps, 'every': 4} for i in range(n)]
+
+
+def has_cycle_error(snap_a, snap_b, d):
+  """True iff some differing cell holds a CircularRefError on either side."""
+  for t in set(snap_a) & set(snap_b):
+    for c in set(snap_a[t][1]) & set(snap_b[t][1]):
+      for x, y in zip(snap_a[t][1][c], snap_b[t][1][c]):
+        if x != y:
+          for v in (x, y):
+            if isinstance(v, list) and len(v) > 1 and v[0] == 'E' and v[1] == 'CircularRefError':
+              return True
+  return False
+
+
+def only_live_nameerror(S, F):
+  """True iff every differing cell holds a NameError on one side (the live engine did not re-evaluate
+  a formula when a table name it mentions appeared or disappeared)."""
+  n = 0
+  for t in set(S) & set(F):
+    for c in set(S[t][1]) & set(F[t][1]):
+      for x, y in zip(S[t][1][c], F[t][1][c]):
+        if x != y:
+          n += 1
+          if not any(isinstance(v, list) and len(v) > 1 and v[0] == 'E' and v[1] == 'NameError' for v in (x, y)):
+            return False
+  return n > 0
+
+
+def witness_new_table_name(acc):
+  """Open finding: a formula naming a table that does not exist holds NameError; adding a table of
+  that name later does not re-evaluate it (there is no invalidation for new table names)."""
+  from vlib.client import EngineProc
+  with EngineProc() as p:
+    p.init_doc()
+    p.apply([['AddTable', 'T', [{'id': 'K', 'type': 'Int', 'isFormula': False}]]])
+    p.apply([['AddRecord', 'T', None, {'K': 1}]])
+    p.apply([['AddColumn', 'T', 'F', {'isFormula': True, 'type': 'Any', 'formula': 'len(Other.all)'}]])
+    p.apply([['AddTable', 'Other', [{'id': 'A', 'type': 'Int', 'isFormula': False}]]])
+    S = snapshot.take(p)
+    F, _ = reload.scratch_snapshot(p)
+    d = snapshot.diff(S, F)
+    acc.count('witness_runs')
+    if d and only_live_nameerror(S, F):
+      acc.violation('unknown_name_not_reevaluated', 'witness: %s' % d[:2], {'diff': d})
+
+
+def witness_self_lookup_cycle(acc):
+  """Open finding: a formula that looks records up by its own column (a cycle through the lookup
+  index). A fresh engine reports CircularRefError in every row; incrementally, rows added later
+  get a value instead."""
+  from vlib.client import EngineProc
+  with EngineProc() as p:
+    p.init_doc()
+    p.apply([['AddTable', 'T', [{'id': 'K', 'type': 'Int', 'isFormula': False}]]])
+    p.apply([['AddColumn', 'T', 'B', {'isFormula': True, 'type': 'Any', 'formula': 'T.lookupOne(B=$K).K'}]])
+    p.apply([['BulkAddRecord', 'T', [None, None], {'K': [1, 2]}]])
+    S = snapshot.take(p)
+    F, _ = reload.scratch_snapshot(p)
+    d = snapshot.diff(S, F)
+    acc.count('witness_runs')
+    if d and has_cycle_error(S, F, d):
+      acc.violation('cycle_detection_incremental_vs_scratch', 'witness: %s' % d[:2], {'diff': d})
 
 
 class ScratchMonitor(histories.Monitor):
@@ -45,6 +108,10 @@ class ScratchMonitor(histories.Monitor):
     if d:
       kind, _ = histories.trace_kind(S, F)
       mech = 'incremental_vs_scratch' if kind == 'formula_cells' else 'scratch_data_differs'
+      if kind == 'formula_cells' and has_cycle_error(S, F, d):
+        mech = 'cycle_detection_incremental_vs_scratch'
+      elif kind == 'formula_cells' and only_live_nameerror(S, F):
+        mech = 'unknown_name_not_reevaluated'
       h.violation(mech, 'live formula values differ from a fresh engine recalculating the same data: %s' % d[:3],
                   {'diff': d, 'bundle': ctx.bundle})
 
@@ -55,6 +122,8 @@ class ScratchMonitor(histories.Monitor):
 
 
 def run_shard(spec, acc):
+  if spec.get('witness'):
+    return globals()['witness_' + spec['witness']](acc)
   h = histories.History(acc, spec['hseed'], [ScratchMonitor(spec.get('every', 4))], spec['steps'], weights=WEIGHTS,
-                        flags={'bundle_multi': 0.25, 'max_rows': 10})
+                        flags={'bundle_multi': 0.25, 'max_rows': 10, 'formula_off': ('self_ref', 'cycle', 'list_keys')})
   h.run()
